@@ -321,6 +321,9 @@ func deepCalls(fn *ssa.Function, pred func(ssa.CallInstruction) bool, depth int)
 				if pred(c) {
 					out = append(out, dcall{c, append([]ssa.CallInstruction{}, chain...)})
 				}
+				if _, isGo := in.(*ssa.Go); isGo {
+					return // a goroutine started here is not part of this function's own control flow
+				}
 				if d < depth {
 					if cal := c.Common().StaticCallee(); cal != nil && cal.Pkg == fn.Pkg && len(cal.Blocks) > 0 && cal != fn {
 						visit(cal, append(append([]ssa.CallInstruction{}, chain...), c), d+1)
